@@ -59,6 +59,7 @@ CONSTANTS MainIns,     \* subset of {"init", "sub"}: where the program lives
           Vals,        \* subset of {"lit","none"}
           Imports,     \* subset of {"OK","og","ov","other","ext","cp"}
           Levels,      \* subset of 1..3: number of leading dots of the relative imports
+          Chains,      \* subset of {"-","other.OK","pkg.other.OK"}: base classes written as dotted chains ("-" = a bare name)
           AsNames,     \* subset of Names \cup {"-"}   ("-" = no `as` clause)
           AllowInst,   \* `def __init__(self): self.q = 1` allowed in classes
           AllowRebind, \* FALSE: forbid statements that change what a base-class name resolves to afterwards
@@ -192,11 +193,14 @@ InClass == frames # <<>>
 \* ghost: which binding the lookup of name n finds right now: <<scope it lives in, index in prog of the binding statement>>
 RtBinder(n) ==
   IF InClass /\ (IF InClass THEN n \in DOMAIN frames[Len(frames)].vars ELSE FALSE) THEN <<Scope, frames[Len(frames)].at[n]>>
-  ELSE <<<<>>, heap[MainId].at[n]>>
+  ELSE <<<<>>, IF n \in DOMAIN heap[MainId].at THEN heap[MainId].at[n] ELSE 0>>     \* 0: bound by the import system only
 
 Tok(t, n, deco, asy, sig, doc, val, what, as, base, inst) ==
   [t |-> t, n |-> n, deco |-> deco, async |-> asy, sig |-> sig, doc |-> doc, val |-> val, what |-> what,
-   as |-> as, base |-> base, inst |-> inst, lvl |-> 0]
+   as |-> as, base |-> base, inst |-> inst, lvl |-> 0, chain |-> "-"]
+\* a dotted base expression head.rest: the head is a name looked up in scope, the rest are attribute accesses
+ChainHead(c) == IF c = "other.OK" THEN "other" ELSE "pkg"
+ChainRest(c) == IF c = "other.OK" THEN <<"OK">> ELSE <<"other", "OK">>
 
 \* ------------------------------------------------------------------------------------------
 \* static tree (Griffe objects built by the visitor)
@@ -204,7 +208,7 @@ Tok(t, n, deco, asy, sig, doc, val, what, as, base, inst) ==
 \* (ghost fields, used only to classify differences: origin/val/dshape = the statement that created the node,
 \*  at = its index in prog, bscope/bat = which binding CPython used for the base name when the class statement ran)
 SNode(kind, params, bname, doc, target, labels, origin, val, dshape) ==
-  [kind |-> kind, params |-> params, bname |-> bname, bscope |-> <<>>, bat |-> 0, at |-> Len(prog) + 1, doc |-> doc,
+  [kind |-> kind, params |-> params, bname |-> bname, brest |-> <<>>, bscope |-> <<>>, bat |-> 0, at |-> Len(prog) + 1, doc |-> doc,
    target |-> target, labels |-> labels, origin |-> origin, val |-> val, dshape |-> dshape]
 
 \* SetMembersMixin.set_member with a one-part key: plain replacement (the old sub-tree goes away)
@@ -220,17 +224,23 @@ FindMember(t, scope, name) ==
   ELSE IF scope = <<>> THEN <<>>                                            \* up to the package root: not found
   ELSE IF Len(scope) >= 2 /\ name = scope[Len(scope) - 1] THEN Front(scope)   \* name == self.parent.name (a class)
   ELSE FindMember(t, Front(scope), name)
+\* (resolution is lazy: it runs on the loaded package, where the loader has set every submodule of an __init__ as member
+\*  under its name - replacing whatever the __init__ bound there, cf. LoaderReplaces)
+LoaderModule(t, scope, name) == IsInit /\ name = "other" /\ FindMember(t, scope, name) \in {<<>>, <<"other">>}
 ResolveIn(t, scope, name) ==
   LET q == FindMember(t, scope, name)
-  IN IF q = <<>> THEN <<name>>                                              \* ExprName.canonical_path: the bare name
+  IN IF LoaderModule(t, scope, name) THEN MainPath \o <<"other">>
+     ELSE IF q = <<>> THEN <<name>>                                         \* ExprName.canonical_path: the bare name
      ELSE IF t[q].kind = "alias" THEN t[q].target ELSE MainPath \o q
 
 \* the canonical path of every class's base expression, resolved lazily on the final tree (ExprName.canonical_path)
-LazyBase(t, p) == IF t[p].bname = "-" THEN <<>> ELSE <<ResolveIn(t, Front(p), t[p].bname)>>
+\* ExprAttribute.canonical_path: every appended name hangs off the previous one, so a.b.C = canonical(a) + b + C
+LazyBase(t, p) == IF t[p].bname = "-" THEN <<>> ELSE <<ResolveIn(t, Front(p), t[p].bname) \o t[p].brest>>
 \* ghost: does that lazy resolution stop at the very binding CPython used when the class statement ran?
 StaticBinder(t, p) ==
   LET q == FindMember(t, Front(p), t[p].bname) IN IF q = <<>> THEN <<<<>>, 0>> ELSE <<Front(q), t[q].at>>
-Rebound(t, p) == t[p].kind = "class" /\ t[p].bname # "-" /\ StaticBinder(t, p) # <<t[p].bscope, t[p].bat>>
+Rebound(t, p) == /\ t[p].kind = "class" /\ t[p].bname # "-" /\ ~LoaderModule(t, Front(p), t[p].bname)
+                 /\ StaticBinder(t, p) # <<t[p].bscope, t[p].bat>>
 Bvia(t, p) ==
   IF t[p].kind # "class" \/ t[p].bname = "-" THEN "-"
   ELSE LET q == FindMember(t, Front(p), t[p].bname) IN IF q = <<>> THEN "-" ELSE t[q].origin
@@ -257,7 +267,8 @@ VisitDef(t, k) ==
 VisitClass(t, k) ==
   SetMember(t, Scope \o <<k.n>>,
             [SNode("class", <<>>, k.base, StaticDoc(k.doc), <<>>, {}, "class", "-", k.doc)
-               EXCEPT !.bscope = IF k.base = "-" THEN <<>> ELSE RtBinder(k.base)[1],
+               EXCEPT !.brest = IF k.chain = "-" THEN <<>> ELSE ChainRest(k.chain),
+                      !.bscope = IF k.base = "-" THEN <<>> ELSE RtBinder(k.base)[1],
                       !.bat = IF k.base = "-" THEN 0 ELSE RtBinder(k.base)[2]])
 
 \* Visitor.handle_attribute (module / class scope): one Attribute per target name, whatever the statement
@@ -354,14 +365,24 @@ StmtDef ==
              /\ st' = VisitDef(st, k) /\ heap' = b[1] /\ frames' = b[2] /\ nid' = nid + 1 /\ Push(k)
   /\ Same
 
+\* CPython evaluates the base expression: name lookup, then one getattr per further part; 0 = does not evaluate to a class
+RECURSIVE RtAttrs(_, _)
+RtAttrs(id, parts) ==
+  IF id = 0 \/ parts = <<>> THEN id
+  ELSE IF Head(parts) \in DOMAIN heap[id].vars THEN RtAttrs(heap[id].vars[Head(parts)], Tail(parts)) ELSE 0
+RtBase(base, chain) ==
+  LET id == RtAttrs(RtLookup(base), IF chain = "-" THEN <<>> ELSE ChainRest(chain))
+  IN IF id = 0 THEN 0 ELSE IF heap[id].type = "class" THEN id ELSE 0
+
 StmtClass ==
   /\ Budget /\ "class" \in Stmts /\ Len(frames) < MaxNest
-  /\ \E n \in Names, base \in Names \cup {"OK", "-"}, doc \in Docs :
-       /\ IF base = "-" THEN TRUE
-          ELSE IF RtLookup(base) = 0 THEN FALSE ELSE heap[RtLookup(base)].type = "class"     \* executable
-       /\ LET k == Tok("class", n, "-", FALSE, "-", doc, "-", "-", "-", base, FALSE)
+  /\ \E n \in Names, base \in Names \cup {"OK", "-", "other", "pkg"}, chain \in Chains, doc \in Docs :
+       /\ (chain = "-") <=> (base \notin {"other", "pkg"})
+       /\ (chain # "-") => base = ChainHead(chain)
+       /\ base = "-" \/ (IF base = "-" THEN FALSE ELSE RtBase(base, chain) # 0)         \* executable: evaluates to a class
+       /\ LET k == [Tok("class", n, "-", FALSE, "-", doc, "-", "-", "-", base, FALSE) EXCEPT !.chain = chain]
           IN /\ st' = VisitClass(st, k)
-             /\ frames' = Append(frames, [name |-> n, base |-> IF base = "-" THEN 0 ELSE RtLookup(base), doc |-> doc,
+             /\ frames' = Append(frames, [name |-> n, base |-> IF base = "-" THEN 0 ELSE RtBase(base, chain), doc |-> doc,
                                           vars |-> [x \in {"__module__"} |-> LitId], at |-> <<>>, hdr |-> Len(prog) + 1])
              /\ Push(k)
   /\ UNCHANGED <<heap, nid>> /\ Same
